@@ -26,8 +26,10 @@ def run_property(prop_id: str, tier: str, seed: int, only: str = None, root: str
         module = importlib.import_module('usimlint.props.%s' % prop_id.lower())
         analysis = Analysis(root=root, overlay=overlay)
         module.run(check, analysis)
-        if tier == 'thorough' and hasattr(module, 'run_thorough') and only is None:
-            module.run_thorough(check, analysis)
+        if tier == 'thorough' and only is None:
+            if hasattr(module, 'run_thorough'):
+                module.run_thorough(check, analysis)
+            _thorough_extras(check, module, prop_id, root, overlay)
     except AnalysisError as err:
         check.error(str(err))
     except RecursionError:
@@ -36,6 +38,42 @@ def run_property(prop_id: str, tier: str, seed: int, only: str = None, root: str
         trace = traceback.format_exc().strip().splitlines()
         check.error('internal %s: %s | %s' % (type(err).__name__, err, ' / '.join(trace[-6:])))
     return check.finish(write=write)
+
+
+def _thorough_extras(check, module, prop_id, root, overlay):
+    """thorough tier: second pass without asserts + the property's self-test variants"""
+    from .selftest import run_selftest, summarise
+    # (1) the same rules with every `assert` removed (python -O): instances that only hold
+    #     thanks to a usage assertion are recorded, not failed -- C02 scopes -O to programs
+    #     that violate no usage assertion
+    shadow = Check(prop_id, 'noassert', check.seed, quiet=True)
+    try:
+        module.run(shadow, Analysis(root=root, overlay=overlay, asserts=False))
+        failing = sorted('%s %s' % (i.rule, i.construct) for i in shadow.instances
+                         if not i.ok)
+        base = set('%s %s' % (i.rule, i.construct) for i in check.instances if not i.ok)
+        only_noassert = [f for f in failing if f not in base]
+        check.stats['noassert_pass_instances'] = len(shadow.instances)
+        check.stats['assert_only_guards'] = only_noassert
+        for item in only_noassert:
+            check.note('holds only under a usage assertion (assert-only): %s' % item)
+    except AnalysisError as err:
+        check.note('no-assert pass not completed: %s' % err)
+    # (2) firing variants and silent twins, analysed in memory
+    if overlay is None:
+        results = run_selftest(prop_id, root)
+        summary = summarise(results)
+        summary['details'] = [
+            {k: r.get(k) for k in ('id', 'kind', 'status', 'what', 'reported')}
+            for r in results]
+        check.selftest = summary
+        check.stats['selftest_variants'] = summary['variants']
+        check.stats['selftest_mutants_detected'] = summary['mutants_detected']
+        check.stats['selftest_twins_silent'] = summary['twins_silent']
+        for vid in summary['mutants_missed']:
+            check.note('self-test: mutant %s not reported on this tree' % vid)
+        for vid in summary['twin_false_alarms']:
+            check.note('self-test: twin %s reported on this tree' % vid)
 
 
 def main(argv) -> int:
@@ -54,6 +92,9 @@ def main(argv) -> int:
             print('ANALYSIS-ERROR unknown property %s' % prop_id)
             return 2
         return run_property(prop_id, tier, seed)
+    if argv[0] == 'selftest':
+        from .selftest import main as selftest_main
+        return selftest_main(argv[1:])
     if argv[0] == 'explain':
         with open(argv[1]) as stream:
             replay = json.load(stream)
